@@ -51,28 +51,64 @@ def query_op(e):
 
 
 class Model:
-    """Reference reachability model."""
+    """Reference reachability model. Keys and ephemerons are objects with ids; K and E slots are the roots. An ephemeron that is
+    reachable and whose key is reachable (or immediate) keeps alive the keys and the ephemerons its value refers to."""
 
     def __init__(self):
-        self.key = {}       # slot -> key id (rooted)
-        self.keys = {}      # key id -> {"written": str or None}
-        self.eph = {}       # slot -> {"key": id, "val": ("fresh", written) | ("refkey", written-prefix) | ("key", id) | ("eph", slot)}
+        self.key = {}       # K slot -> key id (rooted)
+        self.keys = {}      # key id -> {}
+        self.eph = {}       # E slot -> ephemeron id (rooted)
+        self.eobj = {}      # ephemeron id -> {"key": key id or None (immediate #f), "refs": [key ids], "erefs": [ephemeron ids], "written", "created"}
         self.next_id = 0
         self.alive = set()
         self.dead_since = {}   # key id -> op index at which it became model-unreachable
-        self.ports = {}     # slot -> {"open": bool, "kind": str, "noclose": bool}
-        self.dropped_ports = []   # (op index dropped, was_open, noclose)
+
+    def new_id(self):
+        self.next_id += 1
+        return self.next_id - 1
+
+    def add_key(self, slot):
+        kid = self.new_id()
+        self.keys[kid] = {}
+        self.key[slot] = kid
+        return kid
+
+    def add_eph(self, slot, kslot, vspec, opi):
+        """vspec: ["fresh", written] | ["own-key"] | ["key", j] | ["eph", f] -- resolved against the CURRENT slots, so a shrunk history
+        (where the operation that filled a slot is gone and the slot holds #f) is judged as what it now is"""
+        key = self.key.get(kslot)
+        refs, erefs, written = [], [], None
+        if vspec[0] == "fresh":
+            written = vspec[1]
+        elif vspec[0] == "own-key":
+            refs = [key] if key is not None else []
+        elif vspec[0] == "key":
+            k2 = self.key.get(vspec[1])
+            refs = [k2] if k2 is not None else []
+        elif vspec[0] == "eph":
+            e2 = self.eph.get(vspec[1])
+            erefs = [e2] if e2 is not None else []
+        eid = self.new_id()
+        self.eobj[eid] = {"key": key, "refs": refs, "erefs": erefs, "written": written, "created": opi, "kslot": kslot}
+        self.eph[slot] = eid
+        return eid
 
     def reach(self):
         alive = set(self.key.values())
+        ealive = set(self.eph.values())
         changed = True
         while changed:
             changed = False
-            for e in self.eph.values():
-                if e["key"] in alive:
+            for eid in list(ealive):
+                e = self.eobj[eid]
+                if e["key"] is None or e["key"] in alive:
                     for k in e["refs"]:
                         if k not in alive:
                             alive.add(k)
+                            changed = True
+                    for x in e["erefs"]:
+                        if x not in ealive:
+                            ealive.add(x)
                             changed = True
         return alive
 
@@ -102,16 +138,13 @@ def gen_history(rng):
         if op == "mk-key":
             i = rng.below(NK)
             expr, written = key_expr(rng, i)
-            kid = m.next_id
-            m.next_id += 1
-            m.keys[kid] = {"written": written}
-            m.key[i] = kid
-            ops.append({"src": "(vector-set! K %d %s) #t" % (i, expr), "kind": "mk-key", "slot": i, "kid": kid})
+            m.add_key(i)
+            ops.append({"src": "(vector-set! K %d %s) #t" % (i, expr), "kind": "mk-key", "slot": i})
         elif op == "unroot":
             if not m.key:
                 continue
             # prefer keys that some ephemeron's value refers to: after the unroot they are held only through that value
-            chained = sorted(sl for sl, kid in m.key.items() if any(kid in e["refs"] for e in m.eph.values()))
+            chained = sorted(sl for sl, kid in m.key.items() if any(kid in e["refs"] for e in m.eobj.values()))
             i = rng.choice(chained) if chained and rng.chance(2, 3) else rng.choice(sorted(m.key))
             del m.key[i]
             ops.append({"src": "(vector-set! K %d #f) #t" % i, "kind": "unroot", "slot": i})
@@ -120,27 +153,24 @@ def gen_history(rng):
                 continue
             e = rng.below(NE)
             i = rng.choice(sorted(m.key))
-            kid = m.key[i]
-            vk = rng.weighted([(0, 2), (1, 1), (2, 4), (3, 1), (4, 1)])
+            vk = rng.weighted([(0, 2), (1, 1), (2, 4), (3, 2), (4, 1)])
             tag = "v%d" % rng.below(100000)
-            refs = []
             if vk == 0:
-                vexpr, vw = '(list \'%s (string-append "s" "%s"))' % (tag, tag), '(%s "s%s")' % (tag, tag)
+                vexpr, vspec = '(list \'%s (string-append "s" "%s"))' % (tag, tag), ["fresh", '(%s "s%s")' % (tag, tag)]
             elif vk == 1:
-                vexpr, vw = "(list '%s (vector-ref K %d))" % (tag, i), None
-                refs = [kid]
+                vexpr, vspec = "(list '%s (vector-ref K %d))" % (tag, i), ["own-key"]
             elif vk == 2 and len(m.key) >= 2:
                 j = rng.choice([x for x in sorted(m.key) if x != i])
-                vexpr, vw = "(vector-ref K %d)" % j, None
-                refs = [m.key[j]]
+                vexpr, vspec = "(vector-ref K %d)" % j, ["key", j]
             elif vk == 3 and m.eph:
-                f = rng.choice(sorted(m.eph))
-                vexpr, vw = "(vector-ref E %d)" % f, None
+                # the value is an ephemeron object itself (often the one this slot held until now: it stays reachable only through the new one)
+                f = e if (e in m.eph and rng.chance(1, 2)) else rng.choice(sorted(m.eph))
+                vexpr, vspec = "(vector-ref E %d)" % f, ["eph", f]
             else:
-                vexpr, vw = "(make-vector 3 '%s)" % tag, "#(%s %s %s)" % (tag, tag, tag)
-            m.eph[e] = {"key": kid, "refs": refs, "written": vw, "kslot": i}
+                vexpr, vspec = "(make-vector 3 '%s)" % tag, ["fresh", "#(%s %s %s)" % (tag, tag, tag)]
+            m.add_eph(e, i, vspec, opi)
             ops.append({"src": "(vector-set! E %d (make-ephemeron (vector-ref K %d) %s)) #t" % (e, i, vexpr), "kind": "mk-eph", "slot": e,
-                        "kid": kid, "refs": refs, "written": vw, "kslot": i})
+                        "kslot": i, "vspec": vspec})
         elif op == "drop-eph":
             if not m.eph:
                 continue
@@ -280,12 +310,11 @@ def judge(case, res):
             V.append(Verdict("op-error", "operation %d (%s) raised: %s" % (opi, kind, s["res"][:200]), {"kind": kind}))
             return V, checks
         if kind == "mk-key":
-            m.keys[o["kid"]] = {}
-            m.key[o["slot"]] = o["kid"]
+            m.add_key(o["slot"])
         elif kind == "unroot":
             m.key.pop(o["slot"], None)
         elif kind == "mk-eph":
-            m.eph[o["slot"]] = {"key": o["kid"], "refs": o["refs"], "written": o["written"], "kslot": o["kslot"], "created": opi}
+            m.add_eph(o["slot"], o["kslot"], o["vspec"], opi)
         elif kind == "drop-eph":
             m.eph.pop(o["slot"], None)
         elif kind == "gc":
@@ -295,7 +324,10 @@ def judge(case, res):
             m.last_gc = opi
             continue
         elif kind == "query":
-            e = m.eph.get(o["slot"])
+            eid = m.eph.get(o["slot"])
+            e = m.eobj.get(eid) if eid is not None else None
+            if e is not None and e["key"] is None:
+                e = None    # made with an immediate key (#f): nothing to say about "broken" for it; it still counts for reachability
             if e is not None:
                 checks += 1
                 m.update(opi)
